@@ -40,7 +40,8 @@ NTP_UNIX = 2208988800       # seconds from 1900-01-01 to 1970-01-01 (RFC 868)
 
 INT_VALUES = [-2 ** 31, -8, -4, -1, 0, 1, 3, 4, 2 ** 31 - 1]
 SIZE_DELTAS = [1, 2, 3, 4]      # length fields are also overstated by 1..4
-TAG_VALUES = ['i', 'f', 's', 'b', '[', ']', 'x', '\x00']
+TAG_VALUES = ['i', 'f', 's', 'b', '[', ']', 'x', '\x00',
+              'd', 't', 'r', 'm', 'T', 'N']    # non-standard but known types
 DEMANDED_TAGS = frozenset('ifsbTF[]')
 
 
@@ -95,6 +96,22 @@ def bases(unix_future):
         'siblings': b(1, [
             b(timetag(unix_future), [m('/a', [1])]),
             b(timetag(unix_future + 32), [m('/ab', [2]), m('/a', [3])])]),
+        # values of zero length (a string / blob that is only padding / only
+        # its size field) followed by something, nested arrays, a message
+        # without arguments on its own
+        'empty_str': m('/a', ['', 2]),
+        'empty_blob': m('/a', [b'', 2]),
+        'nested_array': m('/a', [[1, [2, 'x']], 3]),
+        'noarg': m('/ab'),
+        # a time tag that has already passed when the bundle arrives (the
+        # message still carries the time of its bundle), three levels of
+        # bundles with three different time tags
+        'late': b(timetag(unix_future - 63.75), [m('/a', [1]), m('/ab', [2])]),
+        'deep': b(timetag(unix_future), [
+            b(timetag(unix_future + 8), [
+                b(timetag(unix_future + 16), [m('/a', [1])]),
+                m('/ab', [2])]),
+            m('/a', [3])]),
     }
 
 
@@ -339,6 +356,11 @@ def selftest():
             classify(b['imm_timed'])['messages']] == [1, 1024.75]
     assert [timetag_to_unix(t) for t, _ in
             classify(b['nested_timed'])['messages']] == [1024.75, 1056.75]
+    assert [timetag_to_unix(t) for t, _ in
+            classify(b['deep'])['messages']] == [1040.75, 1032.75, 1024.75]
+    assert classify(b['empty_blob'])['messages'] == [[None, ['/a', b'', 2]]]
+    assert classify(b['nested_array'])['messages'] == \
+        [[None, ['/a', [1, [2, 'x']], 3]]]
     assert layout(b['bundle2'])['ints'] == [[16, 'elem-size'], [28, 'arg'],
                                             [32, 'elem-size'], [44, 'arg']]
     assert layout(b['blob'])['ints'] == [[8, 'blob-size']]
@@ -378,7 +400,7 @@ def selftest():
     assert cls(i[:5] + b's' + i[6:]) == 'lenient'
     assert cls(i[:5] + b'b' + i[6:]) == 'unrecoverable'     # size 1, no data
     assert cls(i[:5] + b'[' + i[6:]) == 'lenient'
-    assert len(faults(i)) == 12 + 8 + 7
+    assert len(faults(i)) == 12 + 8 + len(TAG_VALUES) - 1
     for name in ('bundle_noarg', 'bundle_float', 'nested_noarg',
                  'nested_float'):
         d = b[name]
